@@ -6,8 +6,13 @@ package hopserver
 // start -> tube dispatch) over a real transport handshake on vlib/simnet and
 // real tube muxers, inside a synctest bubble. The client side is played by the
 // harness: it logs in as a user with a delegate key, then asks for actions
-// (exec with command text, exec with the shell flag, local port forwarding,
-// grant issuing) and observes what the server answers.
+// (exec with command text, exec with the shell flag, local / remote port
+// forwarding, grant issuing, port-forward DATA tubes without asking) and
+// observes what the server answers - and, for forwarding, what it DOES: the
+// forwarding target is a socket of the harness whose connections are counted
+// after every request. Time passes between requests and also between opening
+// the tubes of a request and sending its body; the model judges a request at
+// the moment its body is sent.
 
 import (
 	"bytes"
@@ -41,28 +46,29 @@ import (
 )
 
 type c07eGrant struct {
-	User  int    `json:"user"` // 0 alice, 1 bob
-	Key   int    `json:"key"`  // 0..3
-	Type  int    `json:"type"` // 0 shell, 1 command, 2 local PF, 3 remote PF
-	Cmd   int    `json:"cmd"`  // command text index
-	Start int    `json:"start"` // seconds relative to the session clock
-	Exp   int    `json:"exp"`
+	User  int `json:"user"`  // 0 alice, 1 bob
+	Key   int `json:"key"`   // 0..3
+	Type  int `json:"type"`  // 0 shell, 1 command, 2 local PF, 3 remote PF
+	Cmd   int `json:"cmd"`   // command text index
+	Start int `json:"start"` // seconds relative to the session clock
+	Exp   int `json:"exp"`
 }
 
 type c07eReq struct {
-	Kind int `json:"kind"` // 0 exec command, 1 exec with shell flag, 2 local port forward, 3 issue a shell grant for itself, 4 remote port forward
-	Cmd  int `json:"cmd"`
-	Var  int `json:"var"` // text variant: 0 exact, 1 prefix, 2 suffix, 3 other case, 4 extra blank
-	WaitS int `json:"wait"` // seconds to let pass before the request
+	Kind  int `json:"kind"` // 0 exec command, 1 exec with shell flag, 2 local port forward, 3 issue a shell grant for itself, 4 remote port forward, 5 open a port-forward DATA tube and write to it
+	Cmd   int `json:"cmd"`
+	Var   int `json:"var"`            // text variant: 0 exact, 1 prefix, 2 suffix, 3 other case, 4 extra blank; kind 5: odd = unreliable tube
+	WaitS int `json:"wait"`           // seconds to let pass before the request
+	HoldS int `json:"hold,omitempty"` // kinds 0,1,2,4: seconds to let pass AFTER the tubes of the request were opened and BEFORE its body is sent
 }
 
 type c07eCase struct {
-	Grants   []c07eGrant `json:"grants"`
-	User     int         `json:"user"`
-	Key      int         `json:"key"`
-	InFile   bool        `json:"inFile"` // the key is also listed in the user's authorized_keys (then the session is NOT grant-admitted)
-	Enabled  bool        `json:"enabled"`
-	Reqs     []c07eReq   `json:"reqs"`
+	Grants  []c07eGrant `json:"grants"`
+	User    int         `json:"user"`
+	Key     int         `json:"key"`
+	InFile  bool        `json:"inFile"` // the key is also listed in the user's authorized_keys (then the session is NOT grant-admitted)
+	Enabled bool        `json:"enabled"`
+	Reqs    []c07eReq   `json:"reqs"`
 }
 
 var c07eCmds = []string{"ls", "cat /etc/motd", "true", "uname -a"}
@@ -83,14 +89,14 @@ func c07eText(cmd, variant int) string {
 	return base
 }
 
-// ---- process-wide fixtures (outside any bubble): a unix socket that accepts, as port-forward target
+// ---- process-wide fixtures (outside any bubble)
 var (
-	c07eOnce   sync.Once
-	c07eSock   string
-	c07eSrvKey *keys.X25519KeyPair
-	c07eSrvKEM *keys.KEMKeyPair
+	c07eOnce    sync.Once
+	c07eDir     string // directory of the per-case port-forward target sockets
+	c07eSrvKey  *keys.X25519KeyPair
+	c07eSrvKEM  *keys.KEMKeyPair
 	c07eSrvLeaf *certs.Certificate
-	c07eLog    *logrus.Entry
+	c07eLog     *logrus.Entry
 )
 
 func c07eSetup() {
@@ -105,20 +111,7 @@ func c07eSetup() {
 		if err != nil {
 			panic(err)
 		}
-		c07eSock = filepath.Join(dir, "pf.sock")
-		ln, err := net.Listen("unix", c07eSock)
-		if err != nil {
-			panic(err)
-		}
-		go func() {
-			for {
-				c, err := ln.Accept()
-				if err != nil {
-					return
-				}
-				c.Close()
-			}
-		}()
+		c07eDir = dir
 		c07eSrvKey = keys.GenerateNewX25519KeyPair()
 		c07eSrvKEM, err = keys.GenerateKEMKeyPair(rand.Reader)
 		if err != nil {
@@ -131,12 +124,75 @@ func c07eSetup() {
 	})
 }
 
+// c07eTarget is the service a local port forwarding points at: a unix socket of the
+// harness, one per case, created and served OUTSIDE the bubble (a goroutine blocked in a
+// real accept must not live in a bubble). It counts the connections it receives and
+// closes each at once. Count is a synchronous snapshot that may be taken inside the
+// bubble: it connects from a recognisable (abstract) local address and the accept loop
+// answers that connection with the number of OTHER connections accepted before it - the
+// listen queue is first-in first-out, so every connect() that returned before the probe
+// was made is included.
+type c07eTarget struct {
+	path string
+	ln   *net.UnixListener
+}
+
+const c07eProbePrefix = "@verif-c07-probe-"
+
+var c07eTargetSeq atomic.Int64
+
+func c07eNewTarget() (*c07eTarget, error) {
+	c07eSetup()
+	path := filepath.Join(c07eDir, fmt.Sprintf("pf-%d.sock", c07eTargetSeq.Add(1)))
+	ln, err := net.ListenUnix("unix", &net.UnixAddr{Name: path, Net: "unix"})
+	if err != nil {
+		return nil, err
+	}
+	go func() {
+		n := uint32(0)
+		for {
+			c, err := ln.AcceptUnix()
+			if err != nil {
+				return
+			}
+			if ra, ok := c.RemoteAddr().(*net.UnixAddr); ok && ra != nil && len(ra.Name) > len(c07eProbePrefix) && ra.Name[:len(c07eProbePrefix)] == c07eProbePrefix {
+				c.Write(binary.BigEndian.AppendUint32(nil, n))
+				c.Close()
+				continue
+			}
+			n++
+			c.Close()
+		}
+	}()
+	return &c07eTarget{path: path, ln: ln}, nil
+}
+
+func (tg *c07eTarget) Close() {
+	tg.ln.Close()
+	os.Remove(tg.path)
+}
+
+// Count returns the number of connections the target has received so far.
+func (tg *c07eTarget) Count() (int, error) {
+	laddr := &net.UnixAddr{Name: fmt.Sprintf("%s%d-%d", c07eProbePrefix, os.Getpid(), c07eTargetSeq.Add(1)), Net: "unix"}
+	c, err := net.DialUnix("unix", laddr, &net.UnixAddr{Name: tg.path, Net: "unix"})
+	if err != nil {
+		return 0, err
+	}
+	defer c.Close()
+	var b [4]byte
+	if _, err := io.ReadFull(c, b[:]); err != nil {
+		return 0, err
+	}
+	return int(binary.BigEndian.Uint32(b[:])), nil
+}
+
 type c07eModelGrant struct {
 	g    c07eGrant
 	used bool
 }
 
-func c07eScenario(c c07eCase, v *vlib.Verdict) {
+func c07eScenario(c c07eCase, tg *c07eTarget, v *vlib.Verdict) {
 	c07eSetup()
 	bubbleStart := time.Now()
 	now := func() time.Time { return verifAuthzT0.Add(time.Since(bubbleStart)) }
@@ -289,71 +345,153 @@ func c07eScenario(c c07eCase, v *vlib.Verdict) {
 	// ---- requests
 	elapsed := func() int { return int(time.Since(bubbleStart) / time.Second) }
 	mustRefuse := 0
+	// The harness's target socket is observed after every request. The server may connect to it only on behalf
+	// of a local forwarding that was authorized (model: a local port-forward request that matched an effective,
+	// unused grant was confirmed). The forwarding is the action the grant pays for; data tubes opened afterwards
+	// are carried by it and are not judged against the grant's window again.
+	fwdAuthorized := false
+	fwdUnknown := false // a local port-forward request within a second of a grant boundary was confirmed: connections are not judged any more
+	lastControl := "no-control-request"
+	seen, err := tg.Count()
+	if err != nil {
+		v.Inconclusive = "port-forward target probe failed: " + err.Error()
+		return
+	}
 	for ri, rq := range c.Reqs {
 		if rq.WaitS > 0 {
 			time.Sleep(time.Duration(rq.WaitS) * time.Second)
 		}
-		t := elapsed()
-		valid := func(m *c07eModelGrant) bool { return !m.used && m.g.Start <= t && t < m.g.Exp }
+		var t int
 		var match *c07eModelGrant
+		edge, judged := false, false
 		text := c07eText(rq.Cmd, rq.Var)
-		for _, m := range mine {
-			if !valid(m) {
-				continue
+		// judge consults the model at the moment the request proper is SENT: an action is requested (and, if
+		// allowed, started) when its request message arrives, not when the tubes that carry it were opened.
+		judge := func() {
+			judged = true
+			t = elapsed()
+			valid := func(m *c07eModelGrant) bool { return !m.used && m.g.Start <= t && t < m.g.Exp }
+			for _, m := range mine {
+				if !valid(m) {
+					continue
+				}
+				switch rq.Kind {
+				case 0:
+					if m.g.Type%4 == 1 && c07eText(m.g.Cmd, 0) == text {
+						match = m
+					}
+				case 1:
+					if m.g.Type%4 == 0 {
+						match = m
+					}
+				case 2:
+					if m.g.Type%4 == 2 {
+						match = m
+					}
+				case 4:
+					if m.g.Type%4 == 3 {
+						match = m
+					}
+				}
+				if match != nil {
+					break
+				}
 			}
-			switch rq.Kind {
-			case 0:
-				if m.g.Type%4 == 1 && c07eText(m.g.Cmd, 0) == text {
-					match = m
+			// time edge: a request issued within a second of a grant boundary is not judged
+			for _, m := range mine {
+				if rq.Kind != 5 && (t == m.g.Start || t == m.g.Exp || t+1 == m.g.Start || t+1 == m.g.Exp) {
+					edge = true
 				}
-			case 1:
-				if m.g.Type%4 == 0 {
-					match = m
-				}
-			case 2:
-				if m.g.Type%4 == 2 {
-					match = m
-				}
-			case 4:
-				if m.g.Type%4 == 3 {
-					match = m
-				}
-			}
-			if match != nil {
-				break
 			}
 		}
-		// time edge: a request issued within a second of a grant boundary is not judged
-		edge := false
-		for _, m := range mine {
-			if t == m.g.Start || t == m.g.Exp || t+1 == m.g.Start || t+1 == m.g.Exp {
-				edge = true
+		// hold runs between opening the tubes of a request and sending its body
+		hold := func() {
+			if rq.HoldS > 0 {
+				time.Sleep(time.Duration(rq.HoldS) * time.Second)
 			}
+			judge()
 		}
 		var allowed, answered bool
 		what := ""
 		switch rq.Kind {
 		case 0, 1:
 			what = fmt.Sprintf("exec %q shell=%v", text, rq.Kind == 1)
-			allowed, answered = c07eExec(mux, text, rq.Kind == 1)
+			allowed, answered = c07eExec(mux, text, rq.Kind == 1, hold)
 		case 2:
 			what = "local port forward"
-			allowed, answered = c07ePF(mux, 4)
+			allowed, answered = c07ePF(mux, 4, tg.path, hold)
 		case 4:
 			// the address to listen on is a unix socket in a directory that does not exist: the server answers the
 			// request (that answer is the authorization decision), then fails to listen and gives up, so nothing blocks
 			what = "remote port forward"
-			allowed, answered = c07ePF(mux, 5)
+			allowed, answered = c07ePF(mux, 5, tg.path, hold)
 		case 3:
 			what = "issue a shell grant for itself"
+			judge()
 			allowed, answered = c07eIssue(mux, user, c.Key%verifAuthzNKeys, now())
+		case 5:
+			// no control exchange: the delegate simply opens a port-forward DATA tube and writes to it. There is no
+			// answer to read; what the server did is observed at the target socket below.
+			what = "port-forward data tube"
+			if rq.Var%2 == 1 {
+				what = "port-forward data tube (unreliable)"
+			}
+			judge()
+			answered = c07ePFData(mux, rq.Var%2 == 1)
 		}
-		if !answered {
+		if rq.HoldS > 0 && judged && rq.Kind != 3 && rq.Kind != 5 {
+			v.Label("body-held-back-after-opening-the-tubes")
+		}
+		n, err := tg.Count()
+		if err != nil {
+			v.Inconclusive = "port-forward target probe failed: " + err.Error()
+			return
+		}
+		reached := n - seen
+		seen = n
+		kind := []string{"exec-command", "exec-shell", "port-forward", "grant-issuing", "remote-port-forward", "port-forward-data-tube"}[rq.Kind]
+		if rq.Kind == 5 {
+			allowed = reached > 0
+		}
+		if answered && judged && !edge && rq.Kind != 5 && allowed && match == nil {
+			v.Failf("C07:e2e:action-allowed-without-matching-grant:"+kind, "request %d (%s) at t=%ds in a session admitted through grants %+v was ALLOWED although no effective, unused, matching grant exists", ri, what, t, c.Grants)
+			return
+		}
+		if rq.Kind == 2 && answered && allowed {
+			if edge {
+				fwdUnknown = true
+			} else {
+				fwdAuthorized = true
+			}
+		}
+		if reached > 0 && !fwdAuthorized && !fwdUnknown {
+			v.Failf("C07:e2e:target-reached-without-authorized-forwarding:"+kind+":"+lastControl, "request %d (%s, %s) at t=%ds in a session admitted through grants %+v: the server connected %d time(s) to the forwarding target although no local forwarding was authorized in this session", ri, what, lastControl, elapsed(), c.Grants, reached)
+			return
+		}
+		if !answered || !judged {
 			v.Labelf("request-unanswered:%d", rq.Kind)
 			if rq.Kind == 3 {
 				v.Note = c07eLastIssueErr
 			}
 			break
+		}
+		if rq.Kind == 5 {
+			if !fwdAuthorized && !fwdUnknown {
+				mustRefuse++
+			}
+			if reached > 0 {
+				v.Label("pf-data-tube:reached-target:" + lastControl)
+			} else {
+				v.Label("pf-data-tube:target-not-reached:" + lastControl)
+			}
+			continue
+		}
+		if rq.Kind == 2 {
+			if allowed {
+				lastControl = "after-granted-control-request"
+			} else {
+				lastControl = "after-refused-control-request"
+			}
 		}
 		if match == nil {
 			mustRefuse++
@@ -364,11 +502,6 @@ func c07eScenario(c c07eCase, v *vlib.Verdict) {
 				match.used = true
 			}
 			continue
-		}
-		kind := []string{"exec-command", "exec-shell", "port-forward", "grant-issuing", "remote-port-forward"}[rq.Kind]
-		if allowed && match == nil {
-			v.Failf("C07:e2e:action-allowed-without-matching-grant:"+kind, "request %d (%s) at t=%ds in a session admitted through grants %+v was ALLOWED although no effective, unused, matching grant exists", ri, what, t, c.Grants)
-			return
 		}
 		if !allowed && match != nil {
 			// the statement is an only-if; a refusal of a granted action is not a violation (and for shell requests
@@ -397,7 +530,7 @@ func c07eReadByte(t *tubes.Reliable) (byte, bool) {
 }
 
 // c07eExec opens the two exec tubes, sends the execution request and reads the status byte.
-func c07eExec(mux *tubes.Muxer, cmd string, shell bool) (allowed, answered bool) {
+func c07eExec(mux *tubes.Muxer, cmd string, shell bool, hold func()) (allowed, answered bool) {
 	stdin, err := mux.CreateReliableTube(common.ExecTube)
 	if err != nil {
 		return false, false
@@ -418,6 +551,7 @@ func c07eExec(mux *tubes.Muxer, cmd string, shell bool) (allowed, answered bool)
 	msg = binary.BigEndian.AppendUint32(msg, uint32(len(cmd)))
 	msg = append(msg, cmd...)
 	msg = binary.BigEndian.AppendUint32(msg, 0)
+	hold() // both tubes are open; now (perhaps later) the request itself
 	stdin.Write(msg)
 	b, ok := c07eReadByte(stdout)
 	if !ok {
@@ -426,23 +560,46 @@ func c07eExec(mux *tubes.Muxer, cmd string, shell bool) (allowed, answered bool)
 	return b == 1, true // execConf = 1, execFail = 2
 }
 
-func c07ePF(mux *tubes.Muxer, fwdType byte) (allowed, answered bool) {
+func c07ePF(mux *tubes.Muxer, fwdType byte, target string, hold func()) (allowed, answered bool) {
 	ctl, err := mux.CreateReliableTube(common.PFControlTube)
 	if err != nil {
 		return false, false
 	}
 	defer ctl.Close()
 	// control message: net type (unix = 3?) | forward type | addr len | addr — built by the package's own encoder
-	msg := c07ePFBytes(fwdType)
-	if msg == nil {
-		return false, false
-	}
+	msg := c07ePFBytes(fwdType, target)
+	hold() // the control tube is open; now (perhaps later) the request itself
 	ctl.Write(msg)
 	b, ok := c07eReadByte(ctl)
 	if !ok {
 		return false, false
 	}
 	return b == c07ePFSuccess, true
+}
+
+// c07ePFData opens a port-forward data tube, writes to it and waits until the server
+// closes it (it refused, or the forwarded service hung up) or nothing has happened for 5 s.
+func c07ePFData(mux *tubes.Muxer, unreliable bool) (sent bool) {
+	payload := []byte("verif-c07: bytes for the forwarded service")
+	if unreliable {
+		u, err := mux.CreateUnreliableTube(common.PFTube)
+		if err != nil {
+			return false
+		}
+		u.Write(payload)
+		time.Sleep(2 * time.Second)
+		u.Close()
+		return true
+	}
+	t, err := mux.CreateReliableTube(common.PFTube)
+	if err != nil {
+		return false
+	}
+	t.Write(payload)
+	t.SetReadDeadline(time.Now().Add(5 * time.Second))
+	io.Copy(io.Discard, t)
+	t.Close()
+	return true
 }
 
 func c07eIssue(mux *tubes.Muxer, user string, key int, now time.Time) (allowed, answered bool) {
@@ -473,7 +630,13 @@ func c07eIssue(mux *tubes.Muxer, user string, key int, now time.Time) (allowed, 
 
 func c07eRun(t *testing.T) func(c c07eCase, v *vlib.Verdict) {
 	return func(c c07eCase, v *vlib.Verdict) {
-		res := vlib.Bubble(t, 90*time.Second, func() { c07eScenario(c, v) })
+		tg, err := c07eNewTarget() // outside the bubble
+		if err != nil {
+			v.Inconclusive = "cannot create the port-forward target socket: " + err.Error()
+			return
+		}
+		defer tg.Close()
+		res := vlib.Bubble(t, 90*time.Second, func() { c07eScenario(c, tg, v) })
 		if res.Hung {
 			v.Inconclusive = "bubble hung in real time (C07 e2e)"
 			return
@@ -504,14 +667,21 @@ func c07eGen(t *rapid.T) c07eCase {
 		g.Exp = rapid.SampledFrom([]int{1000, 1000, 1000, 30, -10}).Draw(t, "exp")
 		return g
 	}), 0, 4).Draw(t, "grants")
-	c.Reqs = rapid.SliceOfN(rapid.Custom(func(t *rapid.T) c07eReq {
-		return c07eReq{
-			Kind:  rapid.SampledFrom([]int{0, 0, 0, 1, 2, 2, 3, 4, 4}).Draw(t, "kind"),
+	nreq := rapid.IntRange(1, 5).Draw(t, "nreq")
+	for i := 0; i < nreq; i++ {
+		rq := c07eReq{
+			Kind:  rapid.SampledFrom([]int{0, 0, 0, 1, 2, 2, 3, 4, 4, 5}).Draw(t, "kind"),
 			Cmd:   rapid.IntRange(0, 2).Draw(t, "cmd"),
 			Var:   rapid.SampledFrom([]int{0, 0, 0, 1, 2, 3, 4}).Draw(t, "var"),
 			WaitS: rapid.SampledFrom([]int{0, 0, 0, 5, 40}).Draw(t, "wait"),
+			HoldS: rapid.SampledFrom([]int{0, 0, 0, 0, 12, 40}).Draw(t, "hold"),
 		}
-	}), 1, 5).Draw(t, "reqs")
+		// a data tube most often follows a control request (granted or refused), but also comes out of the blue (above)
+		if i > 0 && c.Reqs[i-1].Kind == 2 && rapid.IntRange(0, 2).Draw(t, "data-after-control") != 0 {
+			rq.Kind = 5
+		}
+		c.Reqs = append(c.Reqs, rq)
+	}
 	return c
 }
 
@@ -534,8 +704,8 @@ const c07ePFSuccess = 1 // portforwarding: failure = 0, success = 1
 
 // c07ePFBytes: control message for a LOCAL forward to the harness's unix socket
 // (net type 3 = unix, forward type 4 = local, 16-bit address length, address).
-func c07ePFBytes(fwdType byte) []byte {
-	addr := c07eSock
+func c07ePFBytes(fwdType byte, target string) []byte {
+	addr := target
 	if fwdType == 5 {
 		addr = "/nonexistent-verif-c07/remote.sock"
 	}
